@@ -302,6 +302,8 @@ class NPShim:
             a = obj(a)
             if a.size == 0:
                 return 0
+            if all(isinstance(x, (SB, bool, _np.bool_)) for x in a.reshape(-1)) and axis is None:
+                return int(sum(1 for x in a.reshape(-1) if bool(x)))  # forks on undecided flags
             return a.sum(axis=axis)
         return _np.sum(a, axis=axis)
 
